@@ -154,7 +154,9 @@ impl VerifNode {
 
     /// Install an event subscription exactly like `SubscribeToEvents`.
     pub fn subscribe(&mut self, id: &str, subscription: Box<dyn NodeEventSubscription>) {
-        self.state.subscriptions.insert(id.to_string(), subscription);
+        self.state
+            .subscriptions
+            .insert(id.to_string(), subscription);
     }
 
     /// Run the real message handler on this state.
